@@ -52,19 +52,25 @@ package dag
 //@   ensures [algorithm-allowed] isNilIface(result) ==> isAlgoAllowed(headers.Algorithm())
 
 //@ func parsePayload
-//@   prop C06
+//@   prop C06 C19
+//@   safety
+//@   requires transaction != nil && message != nil
 //@   ensures [payload-hash-from-body] isNilIface(result) ==> isNilIface(ret(call hash.ParseHex #1).1)
 //@        && same(transaction.payload, ret(call hash.ParseHex #1).0)
 
 //@ func parseContentType
-//@   prop C06
+//@   prop C06 C19
+//@   safety
+//@   requires transaction != nil && !isNilIface(headers)
 //@   ensures [content-type-valid] isNilIface(result) ==> ValidatePayloadType(headers.ContentType()) && transaction.payloadType == headers.ContentType()
 
 //@ func ValidatePayloadType
 //@   pure
 
 //@ func parseSignatureParams
-//@   prop C06 C17
+//@   prop C06 C17 C19
+//@   safety
+//@   requires transaction != nil && !isNilIface(headers)
 //@   ensures [exactly-one-of-jwk-and-kid] isNilIface(result) ==> (isNilIface(transaction.signingKey) != (transaction.signingKeyID == ""))
 //@   ensures [algorithm-recorded] isNilIface(result) ==> transaction.signingAlgorithm == headers.Algorithm()
 // RFC004 3.1: the embedded key is a public key (C17: embedded private keys are refused).
@@ -74,11 +80,15 @@ package dag
 //@        && transaction.signingKey == headers.Get(jws.JWKKey).0.(jwk.Key)
 
 //@ func parseSigningTime
-//@   prop C06
+//@   prop C06 C19
+//@   safety
+//@   requires transaction != nil && !isNilIface(headers)
 //@   ensures [header-present-and-number] isNilIface(result) ==> headers.Get(signingTimeHeader).1 && typeOf(headers.Get(signingTimeHeader).0) == float64
 
 //@ func parseVersion
-//@   prop C06
+//@   prop C06 C19
+//@   safety
+//@   requires transaction != nil && !isNilIface(headers)
 //@   note floats ieee
 //@   ensures [header-present-and-number] isNilIface(result) ==> headers.Get(versionHeader).1 && typeOf(headers.Get(versionHeader).0) == float64
 //@   ensures [version-allowed] isNilIface(result) ==> versionAllowed(transaction.version)
@@ -98,8 +108,32 @@ package dag
 //@   ensures [ok-iff-an-integer-in-range] result.1 <==> (value >= 0 && value <= 4294967295 && math.Trunc(value) == value)
 //@   ensures [value-preserved] result.1 ==> float64(result.0) == value
 
+// Headers.Get for the registered members (jws/headers_gen.go of the pinned jwx): `jwk` is held as a parsed
+// jwk.Key and `kid` as a string (a member of another JSON type fails jws.Parse), both non-nil when present.
+// ASSUMED from the dependency's source; every other member is whatever JSON value the sender chose.
+//@ func (jws.Headers).Get
+//@   trusted
+//@   pure
+//@   ensures p0 == "jwk" && result.1 ==> implements(result.0, jwk.Key)
+//@   ensures p0 == "kid" && result.1 ==> typeOf(result.0) == string
+// The header members are JSON values of any type chosen by the sender: each step decides the type with a
+// checked assertion before it uses the value (a bare assertion panics in the handler's goroutine).
+// ASSUMED: the steps are called by ParseTransaction with a transaction and the parsed headers (non-nil).
+//@ func parsePrevious
+//@   prop C06 C19
+//@   safety
+//@   requires transaction != nil && !isNilIface(headers)
+//@   ensures [header-present-and-a-list] isNilIface(result) ==> headers.Get(previousHeader).1 && typeOf(headers.Get(previousHeader).0) == []any
+//@ func parsePAL
+//@   prop C06 C19
+//@   safety
+//@   requires transaction != nil && !isNilIface(headers)
+//@   ensures [absent-or-a-list] isNilIface(result) && headers.Get(palHeader).1 ==> typeOf(headers.Get(palHeader).0) == []any
+
 //@ func parseLamportClock
-//@   prop C06
+//@   prop C06 C19
+//@   safety
+//@   requires transaction != nil && !isNilIface(headers)
 //@   note floats ieee
 //@   ensures [header-present-and-number] isNilIface(result) ==> headers.Get(lamportClockHeader).1 && typeOf(headers.Get(lamportClockHeader).0) == float64
 //@   ensures [clock-is-the-integer-the-header-holds] isNilIface(result) ==> did(call uint32Header #1) && ret(call uint32Header #1).1 == true
